@@ -284,3 +284,33 @@ prop("C09", "exploration",
           "thorough": {"checks": 6000, "shards": 16, "timeout": 3000, "race": True}},
      ],
      ["interleavings inside the client are sampled, not enumerated"])
+
+
+prop("C20", "exploration",
+     "property-based testing (rapid) of the whole client against the simulated cluster's dial/close log under "
+     "virtual time",
+     "Generated layouts, concurrent first users, later discoveries, CacheRegions and connection failures; every dial "
+     "to an address must find all earlier connections to it given up by the client, and without failures each "
+     "address is dialled once.",
+     "Trusted: the simulated cluster's log (client-side close times from memconn). Server-fatal exceptions are "
+     "injected as a server state (exception + the server dropping the connection), not as isolated per-action results.",
+     [
+         {"test": "TestC20_OneConnection", "quick": {"checks": 4000, "timeout": 300},
+          "thorough": {"checks": 40000, "shards": 16, "timeout": 2400}},
+     ],
+     ["a server answering with a server-fatal class also drops the connection, as real servers do"])
+
+prop("C17", "exploration",
+     "property-based testing (rapid) in exact virtual time: the back-off function against the schedule formula, and "
+     "enumerated persistent-failure scenarios of the whole client against timestamps recorded by the simulated cluster",
+     "The real sleepAndIncreaseBackoff is called on every rung, threshold and drawn duration with cancellation; every "
+     "retry path (single, batch, connection drops, dial failures, probe failures, meta down, ZooKeeper errors) must "
+     "space its attempts by at least the schedule (lower bounds only, as the property says).",
+     "Trusted: synctest virtual time; timestamps taken by the simulated cluster.",
+     [
+         {"test": "TestC17_Formula", "quick": {"checks": 30000, "timeout": 120},
+          "thorough": {"checks": 300000, "shards": 4, "timeout": 900}},
+         {"test": "TestC17_RetrySchedule", "quick": {"checks": 3000, "timeout": 300},
+          "thorough": {"checks": 30000, "shards": 16, "timeout": 2400}},
+     ],
+     ["lower bounds on gaps only"])
